@@ -310,6 +310,10 @@ def run_point(prog: Program, pt: Point, via_instance: bool = True):
     return paths
 
 
+# what the rules read off a finished connection: read through the class's properties when it defines them
+OBSERVED_ATTRS = ("database", "schema", "database_set", "schema_set", "variables", "db_path", "nop_regexes")
+
+
 def run_point_states(prog: Program, pt: Point):
     out = []
     hooks_list = []
@@ -322,13 +326,15 @@ def run_point_states(prog: Program, pt: Point):
     def run(I: Interp):
         duck = Obj("duck", kind="duck")
         database, schema, db_path = make_args(pt)
-        return I.construct(
+        conn = I.construct(
             ClsRef("fakesnow.conn.FakeSnowflakeConnection"),
             [duck, database, schema],
             {"create_database": Const(pt.create_database), "create_schema": Const(pt.create_schema),
              "db_path": db_path, "nop_regexes": Const(None)},
             None,
         )
+        I.refresh_properties(conn, OBSERVED_ATTRS)
+        return conn
 
     paths = explore(prog, factory, run, max_paths=64)
     for p, h in zip(paths, hooks_list):
